@@ -220,9 +220,12 @@ func init() {
 		defer closeTraceOut()
 		rng := rand.New(rand.NewSource(seedFromEnv()*48271 + int64(a.sub)))
 		rep := newReport(a.replays)
-		for i := 0; i < a.n; i++ {
-			htmlTraceLines(soup(rng), rep)
+		texts := make([]string, a.n)
+		for i := range texts {
+			texts[i] = soup(rng)
 		}
+		// VERIF_PARSE_CONC > 1: the documents are read by that many goroutines at once (each its own document)
+		parallelDo(len(texts), parseConc(), func(i int) { htmlTraceLines(texts[i], rep) })
 		rep.finish()
 		writeJSON(a.report, rep)
 		return 0
@@ -261,22 +264,30 @@ func init() {
 		defer closeTraceOut()
 		rng := rand.New(rand.NewSource(seedFromEnv()*69621 + int64(a.sub)))
 		rep := newReport(a.replays)
-		for i := 0; i < a.n; i++ {
+		type jdoc struct {
+			vals []JVal
+			text string
+		}
+		docs := make([]jdoc, a.n)
+		for i := range docs {
 			var vals []JVal
 			for k := 1 + rng.Intn(2); k > 0; k-- {
 				vals = append(vals, randJSON(rng, 4))
 			}
-			text := renderJSONDoc(vals, rng)
+			docs[i] = jdoc{vals, renderJSONDoc(vals, rng)}
+		}
+		parallelDo(len(docs), parseConc(), func(i int) {
+			vals, text := docs[i].vals, docs[i].text
 			lg := &pullLogger{p: parser.ReadJson(strings.NewReader(text))}
 			rr := readSafe(func() (xsel.Cursor, error) { return store.CreateInMemory(lg) })
 			if rr.panic != nil || rr.err != nil {
 				rep.addFailure(Failure{Aspect: "unexpected-error", Fam: "C16.json", Text: text, Detail: fmt.Sprint("ReadJson failed on a valid text: ", rr.panic, rr.err)},
 					map[string]any{"fam": "C16.text", "text": text})
-				continue
+				return
 			}
 			writeTrace(map[string]any{"ev": "json", "vals": vals, "pulls": nn(lg.evs), "text": text})
 			writeTrace(map[string]any{"ev": "store", "evs": nn(lg.evs), "snap": snapshot(rr.root)})
-		}
+		})
 		rep.finish()
 		writeJSON(a.report, rep)
 		return 0
